@@ -3,6 +3,7 @@ import ScriggoV.Model.VMInt
 import ScriggoV.Model.Eval
 import ScriggoV.Model.Compile
 import ScriggoV.Model.CompileCond
+import ScriggoV.Model.FieldIndex
 /-! line-protocol handler for C01 (stage one). Requests (after the leading `C01`):
 
 * `bin <op> <kind> <x> <y>`        — `x op y`, both of `kind`
@@ -22,6 +23,15 @@ import ScriggoV.Model.CompileCond
   variable `j` in string register `j+1`): the code up to and including the final `If`
 * `ccrun <ni> <v…> <nb> <b…> <ns> <len…> <cond>` — the model VM on that code: `ok true|false` / `err <fault>`,
   then the reference semantics `evalCond` the same way
+
+* `srun <np> <val>… <ns> <stmt>…`   — the selector evaluator of `Model/Struct.lean` on a function body whose
+  locals `0 … np-1` hold the given values; answers `ok <printed ints | -> ; <table trace> ; <requested>`:
+  the second part is what `compileEvents` (the emitter's requests threaded through `makeFieldIndex`)
+  makes the disassembler print for the body's `Field`/`SetField` instructions (`F0,1 S2 …`, `-` when
+  none, `err <fault>`), the third the paths the source asks for. `<val>` = `i <z>` | `n <k> <val>…`;
+  `<path>` = `<len> <i>…`; `<expr>` = `lit <z>` | `var <x>` | `sel <path> <expr>` | `mk <k> <expr>…` |
+  `add <expr> <expr>` | `eq <expr> <expr>`; `<stmt>` = `decl <expr>` | `asg <x> <steps> <path>… <expr>` |
+  `opa <x> <steps> <path>… <expr>` | `pr <expr>` | `dump <x>`
 
 `<cond>` is `clit true|false`, `ccmp <op> <expr> <expr>`, `lenl <op> <s> <expr>`, `lenr <op> <expr> <s>`,
 `cnot <bval>`, `cval <bval>` with `<bval>` = `bcmp <op> <expr> <expr>` | `bvar <i>`.
@@ -195,7 +205,159 @@ def showBool : Except Fault Bool → Option String
   | .error .other => none
   | .error f => some ("err " ++ f.name)
 
+/-! ### struct values and selectors (stream 7) -/
+namespace S
+open ScriggoV.Struct ScriggoV.FieldIndex
+
+def pNats : Nat → List String → Option (List Nat × List String)
+  | 0, toks => some ([], toks)
+  | k + 1, t :: rest => do
+    let n ← t.toNat?
+    let (ns, rest) ← pNats k rest
+    pure (n :: ns, rest)
+  | _ + 1, [] => none
+
+def pPath : List String → Option (Path × List String)
+  | n :: rest => do
+    let n ← n.toNat?
+    pNats n rest
+  | [] => none
+
+def pPaths : Nat → List String → Option (List Path × List String)
+  | 0, toks => some ([], toks)
+  | k + 1, toks => do
+    let (p, rest) ← pPath toks
+    let (ps, rest) ← pPaths k rest
+    pure (p :: ps, rest)
+
+mutual
+def pVal : Nat → List String → Option (SVal × List String)
+  | 0, _ => none
+  | _ + 1, "i" :: z :: rest => do
+    let z ← z.toInt?
+    pure (.int z, rest)
+  | f + 1, "n" :: k :: rest => do
+    let k ← k.toNat?
+    let (vs, rest) ← pVals f k rest
+    pure (.node vs, rest)
+  | _ + 1, _ => none
+def pVals : Nat → Nat → List String → Option (List SVal × List String)
+  | 0, _, _ => none
+  | _ + 1, 0, toks => some ([], toks)
+  | f + 1, k + 1, toks => do
+    let (v, rest) ← pVal f toks
+    let (vs, rest) ← pVals f k rest
+    pure (v :: vs, rest)
+end
+
+mutual
+def pExpr : Nat → List String → Option (Struct.Expr × List String)
+  | 0, _ => none
+  | _ + 1, "lit" :: z :: rest => do
+    let z ← z.toInt?
+    pure (.lit z, rest)
+  | _ + 1, "var" :: x :: rest => do
+    let x ← x.toNat?
+    pure (.var x, rest)
+  | f + 1, "sel" :: rest => do
+    let (p, rest) ← pPath rest
+    let (e, rest) ← pExpr f rest
+    pure (.sel e p, rest)
+  | f + 1, "mk" :: k :: rest => do
+    let k ← k.toNat?
+    let (es, rest) ← pExprs f k rest
+    pure (.mk es, rest)
+  | f + 1, "add" :: rest => do
+    let (a, rest) ← pExpr f rest
+    let (b, rest) ← pExpr f rest
+    pure (.add a b, rest)
+  | f + 1, "eq" :: rest => do
+    let (a, rest) ← pExpr f rest
+    let (b, rest) ← pExpr f rest
+    pure (.eq a b, rest)
+  | _ + 1, _ => none
+def pExprs : Nat → Nat → List String → Option (List Struct.Expr × List String)
+  | 0, _, _ => none
+  | _ + 1, 0, toks => some ([], toks)
+  | f + 1, k + 1, toks => do
+    let (e, rest) ← pExpr f toks
+    let (es, rest) ← pExprs f k rest
+    pure (e :: es, rest)
+end
+
+def pStmt (toks : List String) : Option (Stmt × List String) :=
+  let fuel := toks.length + 1
+  match toks with
+  | "decl" :: rest => do
+    let (e, rest) ← pExpr fuel rest
+    pure (.decl e, rest)
+  | "pr" :: rest => do
+    let (e, rest) ← pExpr fuel rest
+    pure (.print e, rest)
+  | "dump" :: x :: rest => do
+    let x ← x.toNat?
+    pure (.dump x, rest)
+  | "asg" :: x :: k :: rest => do
+    let x ← x.toNat?
+    let k ← k.toNat?
+    let (ps, rest) ← pPaths k rest
+    let (e, rest) ← pExpr fuel rest
+    pure (.assign x ps e, rest)
+  | "opa" :: x :: k :: rest => do
+    let x ← x.toNat?
+    let k ← k.toNat?
+    let (ps, rest) ← pPaths k rest
+    let (e, rest) ← pExpr fuel rest
+    pure (.opAssign x ps e, rest)
+  | _ => none
+
+def pStmts : Nat → List String → Option (List Stmt × List String)
+  | 0, toks => some ([], toks)
+  | k + 1, toks => do
+    let (s, rest) ← pStmt toks
+    let (ss, rest) ← pStmts k rest
+    pure (s :: ss, rest)
+
+def pathText (p : Path) : String := ",".intercalate (p.map toString)
+
+def itemText : Bool × Path → String
+  | (false, p) => "F" ++ pathText p
+  | (true, p) => "S" ++ pathText p
+
+def itemsText (l : List (Bool × Path)) : String :=
+  if l.isEmpty then "-" else " ".intercalate (l.map itemText)
+
+def outText : List SVal → Option String
+  | [] => some "-"
+  | vs => do
+    let zs ← vs.mapM fun v => match v with
+      | .int z => some (toString z)
+      | .node _ => none
+    pure (" ".intercalate zs)
+
+def handle (np : Nat) (toks : List String) : Option String := do
+  let (vals, rest) ← pVals (toks.length + 1) np toks
+  let ns ← (← rest.head?).toNat?
+  let (ss, rest) ← pStmts ns (rest.drop 1)
+  if !rest.isEmpty then none
+  let st ← Struct.run ss ⟨vals, []⟩
+  let out ← outText st.out
+  let evs := Struct.events ss
+  let trace := match compileEvents evs [] with
+    | .ok (code, tbl) =>
+      match code.mapM (printed tbl) with
+      | some items => itemsText items
+      | none => "err position"
+    | .error .limit => "err limit"
+    | .error .index => "err index"
+  pure ("ok " ++ out ++ " ; " ++ trace ++ " ; " ++ itemsText (requested evs))
+
+end S
+
 def handle : List String → Option String
+  | "srun" :: np :: rest => do
+    let np ← np.toNat?
+    S.handle np rest
   | ["bin", op, k, x, y] => do
     let op ← Eval.binOfName op
     let k ← Kind.ofName k
